@@ -89,6 +89,21 @@ func mutateMsg(r *Rand, m *pgwire.FMsg, limit int) {
 		}
 		m.CountOverride[r.Pick("oids", "pfmt", "params", "rfmt")] = r.PickInt(0xFFFF, 0x7FFF, 1, 255, 0x8000, 0x8001, 0x8002, 0xC000, 0x5556, 0x4000)
 	case 4:
+		if m.K == "B" && r.Bool() {
+			// format codes that are neither 0 nor 1 (for the results, the
+			// parameters, or both): whatever the type library makes of them when a
+			// row is encoded or a parameter scanned, the process survives
+			g := []int16{int16(r.PickInt(2, 0x722d, -1, 0x7fff, 256, -32768))}
+			if r.Bool() {
+				m.RFmt = g
+			} else {
+				m.PFmt = g
+			}
+			if r.Chance(1, 3) {
+				m.RFmt, m.PFmt = g, g
+			}
+			break
+		}
 		m.Tail = r.Bytes(r.Range(1, 40))
 	case 5:
 		// a Bind value whose length word points beyond the body
@@ -174,7 +189,7 @@ func genC04(r *Rand, tier string) *Case {
 		// every output byte and write event, which would count as growth)
 		phase := r.Pick("copy", "ready", "discard")
 		t := map[string]string{"copy": "HS", "ready": "H", "discard": "HEPBDC"}[phase]
-		return c04Flood(phase, t[r.Intn(len(t))], int64(r.PickInt(100000, 400000, 1000000)), limit)
+		return c04Flood(phase, t[r.Intn(len(t))], int64(r.PickInt(250000, 400000, 1000000)), limit)
 	}
 	switch {
 	case kind == 0 && r.Chance(1, 4): // TLS negotiation broken off by the peer
@@ -692,7 +707,7 @@ func c04Fixed(tier string) []*Case {
 func init() {
 	register(&Prop{
 		ID: "C04", Level: "fault_enumeration", QuickS: 30, ThoroughS: 480,
-		Rule:       "fault enumeration: for each of a fixed corpus of 38 sessions (generated with fixed seeds over every phase: startup with/without authentication and middleware, SSLRequest declined, CancelRequest, simple and extended queries with failing handlers, COPY text and binary through the row reader, oversized and unknown messages) EVERY transport fault position is enumerated: fail the k-th read (all k), end the input after the n-th byte (all n), fail the k-th write with 0 / 1 / all-but-one bytes accepted (all k); plus enumerated truncations of a Bind and a Query at every byte, Bind value lengths beyond the body, counts 0xFFFF; plus seeded cases: random bytes on a fresh connection and after a valid startup, startup-phase packets with perturbed lengths and protocol versions, generated sessions with one field-level mutation (length word 0-3/L+1/2^31-1/2^32-1, truncation, missing NUL, counts 0xFFFF, value length beyond body, random type byte, 1-4 GiB declared with little sent), hostile texts through ParseParameters, corrupted binary COPY rows, and seeded fault combinations; oracles: the worker process survives (a death is attributed to the recorded case and confirmed alone), the hostile connection is closed and the server issues no further transport operation within the budget, a bystander session accepted afterwards on the same Server is served exactly as the model says and Serve returns nil, per-step allocation stays below 4L+16MiB, a faulted connection's callbacks/output are a prefix of the fault-free ones, nothing is executed for a certainly-malformed message; every case counts as TLS negotiation broken off by the peer after 'S' (alert records, truncated ClientHello, other record types, junk); peers that stall before their startup is complete while a bystander connects; final messages of 64 KiB - 400 KB whose every field arrives but whose declared length does not (nothing is executed for them); messages around and beyond the size limit behind legal traffic of every size (the generator of C10); non-trivial; distinct = distinct case content hashes; flood scenarios (enumerated and seeded): 100k-1M body-less messages in COPY, ready and discarding state with bounds on goroutine-stack and live-heap growth",
+		Rule:       "fault enumeration: for each of a fixed corpus of 38 sessions (generated with fixed seeds over every phase: startup with/without authentication and middleware, SSLRequest declined, CancelRequest, simple and extended queries with failing handlers, COPY text and binary through the row reader, oversized and unknown messages) EVERY transport fault position is enumerated: fail the k-th read (all k), end the input after the n-th byte (all n), fail the k-th write with 0 / 1 / all-but-one bytes accepted (all k); plus enumerated truncations of a Bind and a Query at every byte, Bind value lengths beyond the body, counts 0xFFFF; plus seeded cases: random bytes on a fresh connection and after a valid startup, startup-phase packets with perturbed lengths and protocol versions, generated sessions with one field-level mutation (length word 0-3/L+1/2^31-1/2^32-1, truncation, missing NUL, counts 0xFFFF, value length beyond body, format codes other than 0 and 1, random type byte, 1-4 GiB declared with little sent), hostile texts through ParseParameters, corrupted binary COPY rows, and seeded fault combinations; oracles: the worker process survives (a death is attributed to the recorded case and confirmed alone), the hostile connection is closed and the server issues no further transport operation within the budget, a bystander session accepted afterwards on the same Server is served exactly as the model says and Serve returns nil, per-step allocation stays below 4L+16MiB, a faulted connection's callbacks/output are a prefix of the fault-free ones, nothing is executed for a certainly-malformed message; every case counts as TLS negotiation broken off by the peer after 'S' (alert records, truncated ClientHello, other record types, junk); peers that stall before their startup is complete while a bystander connects; final messages of 64 KiB - 400 KB whose every field arrives but whose declared length does not (nothing is executed for them); messages around and beyond the size limit behind legal traffic of every size (the generator of C10); non-trivial; distinct = distinct case content hashes; flood scenarios (enumerated and seeded): 250k-1M body-less messages in COPY, ready and discarding state with bounds on goroutine-stack and live-heap growth",
 		Exhaustive: "every read index, input byte offset and write index (x3 accepted-byte counts) of each corpus session; every truncation offset of the handcrafted Bind and Query",
 		Components: append(append([]string{}, e1Components...), "E2 share (the variants that pin Server.Close or other connections against a running session): seeded scheduler harness/kernel.go decides every interleaving of connection goroutines and Close callers at transport operations, callbacks, hand-placed hooks and spliced synchronisation points"), Assumptions: append(append([]string{}, commonAssumptions...), "allocation failure and Accept errors are not injected (not injectable in Go / no property speaks about them)"),
 		Fixed: c04Fixed, Gen: genC04, Check: checkC04,
